@@ -47,11 +47,11 @@ PROPS['C02'] = Prop(
 _Q_BOUNDS = ('EventQueue<int, ...> with 2 event keys; K=%d top-level steps from enqueue(key)/process/processOne/processIf/processUntil/peekEvent/takeEvent/clearEvents/appendListener(key)/removeListener(h); '
              'payload value symbolic 32-bit, predicate verdict = function of the symbolic payload; RA=%d re-entrant operation(s) (enqueue/processOne/takeEvent/clearEvents/process) issued from a listener or predicate; payload kind: %s')
 PROPS['C05'] = Prop(
-    quick=[Run('q_history_k3_int', 'q_history.cpp', {'KK': 3, 'RA': 1, 'PAYLOAD': 0}, covers=11, bounds=_Q_BOUNDS % (3, 1, 'two uint32_t by value')),
-           Run('q_history_k3_moveonly', 'q_history.cpp', {'KK': 3, 'RA': 0, 'PAYLOAD': 3}, covers=11, optional_covers=(4, 5, 7), bounds=_Q_BOUNDS % (3, 0, 'move-only tracked object by const reference'))],
-    thorough=[Run('q_history_k4_int', 'q_history.cpp', {'KK': 4, 'RA': 1, 'PAYLOAD': 0}, covers=11, budget_s=1700, bounds=_Q_BOUNDS % (4, 1, 'two uint32_t by value')),
-              Run('q_history_k4_byvalue', 'q_history.cpp', {'KK': 4, 'RA': 0, 'PAYLOAD': 1}, covers=11, optional_covers=(4, 5), budget_s=1700, bounds=_Q_BOUNDS % (4, 0, 'copyable tracked object by value')),
-              Run('q_history_k4_moveonly', 'q_history.cpp', {'KK': 4, 'RA': 1, 'PAYLOAD': 3}, covers=11, optional_covers=(7,), budget_s=1700, bounds=_Q_BOUNDS % (4, 1, 'move-only tracked object by const reference'))],
+    quick=[Run('q_history_k3_int', 'q_history.cpp', {'KK': 3, 'RA': 1, 'PAYLOAD': 0}, covers=11, optional_covers=(11, 12), bounds=_Q_BOUNDS % (3, 1, 'two uint32_t by value')),
+           Run('q_history_k3_moveonly', 'q_history.cpp', {'KK': 3, 'RA': 0, 'PAYLOAD': 3}, covers=11, optional_covers=(11, 12, 4, 5, 7), bounds=_Q_BOUNDS % (3, 0, 'move-only tracked object by const reference'))],
+    thorough=[Run('q_history_k4_int', 'q_history.cpp', {'KK': 4, 'RA': 1, 'PAYLOAD': 0}, covers=11, optional_covers=(11, 12), budget_s=1700, bounds=_Q_BOUNDS % (4, 1, 'two uint32_t by value')),
+              Run('q_history_k4_byvalue', 'q_history.cpp', {'KK': 4, 'RA': 0, 'PAYLOAD': 1}, covers=11, optional_covers=(11, 12, 4, 5), budget_s=1700, bounds=_Q_BOUNDS % (4, 0, 'copyable tracked object by value')),
+              Run('q_history_k4_moveonly', 'q_history.cpp', {'KK': 4, 'RA': 1, 'PAYLOAD': 3}, covers=11, optional_covers=(11, 12, 7,), budget_s=1700, bounds=_Q_BOUNDS % (4, 1, 'move-only tracked object by const reference'))],
     outside='histories longer than K steps; more than RA re-entrant operations per history; listener changes issued from inside listeners (those follow C02); threads (C06)',
     assumptions=['every listener/predicate call is checked against the reference model at the moment it happens (incremental oracle)'])
 
@@ -75,6 +75,38 @@ PROPS['C15'] = Prop(
               Run('scoped_disp_k3', 'scoped.cpp', {'KK': 3, 'TK': 1}, covers=8, budget_s=1700, bounds=_SR_BOUNDS % ('EventDispatcher', 3)),
               Run('scoped_queue_k3', 'scoped.cpp', {'KK': 3, 'TK': 2}, covers=8, budget_s=1700, bounds=_SR_BOUNDS % ('EventQueue', 3))],
     outside='more than K steps after the initial configuration; more than 3 removers / 2 targets; exceptions inside remover operations (C09); threads')
+
+_OQ = 'EventQueue with OrderedQueueList policy, comparator %s; the ordering key is a fully symbolic 32-bit value per event (the solver enumerates every feasible ordering incl. ties); K=%d steps as C05, RA=%d re-entrant operation(s)'
+PROPS['C13'] = Prop(
+    quick=[Run('q_ordered_asc_k3', 'q_history.cpp', {'KK': 3, 'RA': 1, 'PAYLOAD': 0, 'ORDERED': 1}, covers=13, bounds=_OQ % ('ascending on the first argument', 3, 1)),
+           Run('q_ordered_desc_k3', 'q_history.cpp', {'KK': 3, 'RA': 0, 'PAYLOAD': 0, 'ORDERED': 2}, covers=13, optional_covers=(4, 5), bounds=_OQ % ('descending on the first argument', 3, 0)),
+           Run('q_ordered_event_k3', 'q_history.cpp', {'KK': 3, 'RA': 0, 'PAYLOAD': 0, 'ORDERED': 3}, covers=13, optional_covers=(4, 5), bounds='default OrderedQueueListCompare (orders by event, 2 concrete event keys), K=3, payload symbolic')],
+    thorough=[Run('q_ordered_asc_k4', 'q_history.cpp', {'KK': 4, 'RA': 1, 'PAYLOAD': 0, 'ORDERED': 1}, covers=13, budget_s=1700, bounds=_OQ % ('ascending on the first argument', 4, 1)),
+              Run('q_ordered_desc_k4', 'q_history.cpp', {'KK': 4, 'RA': 1, 'PAYLOAD': 0, 'ORDERED': 2}, covers=13, budget_s=1700, bounds=_OQ % ('descending on the first argument', 4, 1)),
+              Run('q_ordered_event_k4', 'q_history.cpp', {'KK': 4, 'RA': 1, 'PAYLOAD': 0, 'ORDERED': 3}, covers=13, budget_s=1700, bounds='default comparator by event, K=4, RA=1')],
+    outside='more than K steps / K pending events (std::list::sort is executed in full, no unwinding cut); comparators that are not strict weak orders',
+    assumptions=['the reference model keeps the pending events in stable comparator order (insertion after every event that does not compare greater)'])
+
+_CM = ('%s: up to 3 objects in storage pre-filled with arbitrary (symbolic) bytes; source built by append+prepend%s; K=%d steps from add / remove-first (heter: prepend) / copy-construct / move-construct / '
+       'copy-assign (incl. self) / move-assign / swap (incl. self)%s; after every step every live object is invoked (symbolic arguments) and compared with its own model')
+def _cm(name, objk, k, cls, extra='', q='', **kw):
+    return Run(name, 'copymove.cpp', {'KK': k, 'OBJ': objk}, covers=9, bounds=_CM % (cls, extra, k, q), **kw)
+PROPS['C10'] = Prop(
+    quick=[_cm('copymove_cl_k3', 0, 3, 'CallbackList', ', generation counter at a symbolic position', optional_covers=(8,)),
+           _cm('copymove_disp_k2', 1, 2, 'EventDispatcher', optional_covers=(7, 8)),
+           _cm('copymove_queue_k3', 2, 3, 'EventQueue', q=' / enqueue / process; emptyQueue() and waitFor(0) checked on every object'),
+           _cm('copymove_hcl_k2', 3, 2, 'HeterCallbackList (2 prototypes)', optional_covers=(7, 8)),
+           _cm('copymove_hdisp_k2', 4, 2, 'HeterEventDispatcher', optional_covers=(7, 8)),
+           _cm('copymove_hqueue_k2', 5, 2, 'HeterEventQueue', q=' / enqueue / process', optional_covers=(7, 8))],
+    thorough=[_cm('copymove_cl_k4', 0, 4, 'CallbackList', ', generation counter at a symbolic position', optional_covers=(8,), budget_s=1700),
+              _cm('copymove_disp_k3', 1, 3, 'EventDispatcher', optional_covers=(8,), budget_s=1700),
+              _cm('copymove_queue_k4', 2, 4, 'EventQueue', q=' / enqueue / process', budget_s=1700),
+              _cm('copymove_hcl_k3', 3, 3, 'HeterCallbackList', optional_covers=(8,), budget_s=1700),
+              _cm('copymove_hdisp_k3', 4, 3, 'HeterEventDispatcher', optional_covers=(8,), budget_s=1700),
+              _cm('copymove_hqueue_k3', 5, 3, 'HeterEventQueue', q=' / enqueue / process', budget_s=1700)],
+    outside='more than 3 objects / K steps; -std other than c++17 in this check (C20 re-runs it at c++11/14/20); MixinFilter state (C12)',
+    assumptions=['objects are placement-constructed into vf_havoc()ed storage, so a member a constructor forgets reads as arbitrary bytes chosen by the solver',
+                 'Threading = instrumented policy (mutex, atomics, condition variable) so waitFor(0) is executed through the real wait_for predicate loop'])
 
 HOOK_COMMITS = []
 EBMC_PROPS = []
